@@ -26,8 +26,8 @@ EXPLANATION = (
     "value equals the specification (add: a+b, sub: a-b, mul, div: a/b, neg: -a, min/max by case analysis on the ordering, widening "
     "and narrowing conversions) with a = first parameter; operand widths TBYTE/QWORD match [u8;10]/f80/f64; for lt/le the condition "
     "written to al is 'a < b' / 'a <= b' with value false when unordered, the output register is eax and only bit 0 is used. X2 "
-    "gt/ge = lt/le with swapped arguments; no comparison method is the negation of another; partial_cmp maps (le,ge) = (F,F)->None, "
-    "(F,T)->Greater, (T,F)->Less, (T,T)->Equal. X3 PartialEq is hand-written through the comparison family (never on the bytes), no "
+    "gt/ge = lt/le with swapped arguments; no comparison method is the negation of another; on every path of partial_cmp the comparison outcomes (less/equal/greater/unordered) "
+    "consistent with the path's facts about lt/le/gt/ge all map to Less/Equal/Greater/None, and all four are decided. X3 PartialEq is hand-written through the comparison family (never on the bytes), no "
     "Eq impl. X4 OpAssign = *self = self.op(rhs) of the matching operator; abs = if self < 0 { -self } else { self }; Default = ZERO. "
     "X5 the byte arrays of ZERO and ONE decode (sign, exponent bias 0x3FFF, explicit integer bit) to 0.0 and 1.0. NOT decided: "
     "correct rounding of the arithmetic and of the conversions."
